@@ -45,6 +45,34 @@ def ingroup(facts, cls, name, countfield, res):
     query = fn["params"][-1]
     rets = [x for x in walk(fm.body, into_lambdas=False) if x.get("k") == "ReturnStmt"]
     succ = [r for r in rets if not is_empty_return(facts, r)]
+    if len(succ) > 1:
+        # additional positive exits (fast paths): a position may only be returned on a path that tested the query against something
+        main = [r for r in succ if any(fm.decls.get(y.get("did")) is not None and kids(fm.decls[y["did"]]) and tbf.callee_name(strip(kids(fm.decls[y["did"]])[0])) == "lower_bound_indexes"
+                                       for y in walk(r) if y.get("k") == "DeclRefExpr" and y.get("dk") == "Var")]
+        if len(main) != 1:
+            raise AnalysisBroken("%s::%s: %d non-empty returns, %d of them from the search (1 / 1 confirmed by reading)" % (cls, name, len(succ), len(main)))
+        for r in succ:
+            if r is main[0]:
+                continue
+            conds = []
+            p = r.get("_p")
+            while p is not None:
+                if p.get("k") == "IfStmt":
+                    conds.append(p["c"][-3] if len(p["c"]) >= 3 else p["c"][0])
+                p = p.get("_p")
+            for st in top:
+                if st["l"][1] >= r["l"][1]:
+                    break
+                if st.get("k") == "IfStmt" and any(x.get("k") == "ReturnStmt" for x in walk(st)) and not any(x is r for x in walk(st)):
+                    conds.append(st["c"][-3] if len(st["c"]) >= 3 else st["c"][0])
+            tests_query = any(y.get("k") == "DeclRefExpr" and y.get("did") == query["did"] for c in conds for y in walk(c))
+            res.instance(R, "%s::%s extra positive exit@%d" % (cls, name, r["l"][1]), facts.loc(r), "conditions on its path mention the query: %s" % tests_query)
+            if not tests_query:
+                res.violation(R, f, fn["qname"], "untested-positive-exit@%d" % r["l"][1], r["l"][1],
+                              "a position is returned (`%s`) on a path where the queried index was never compared with anything: indices outside the group, or absent from it, are reported as found" % facts.ntext(r)[:90])
+            else:
+                raise AnalysisBroken("%s::%s: an additional positive exit at line %d tests the query in a way the rule does not model; re-confirm C16.1 by reading" % (cls, name, r["l"][1]))
+        succ = main
     if len(succ) != 1:
         raise AnalysisBroken("%s::%s: %d non-empty returns (1 confirmed by reading)" % (cls, name, len(succ)))
     s = succ[0]
@@ -118,9 +146,6 @@ def ingroup(facts, cls, name, countfield, res):
         norm = lambda t: re.sub(r"\b\w*[Hh]eader\b", "HDR", t)
         if norm(gkey) != norm(lkey):
             res.violation(R, f, fn["qname"], "key-agreement", lam["l"][1], "the search orders elements by `%s` but the result is verified with `%s`" % (lkey, gkey))
-    for r in rets:
-        if r is not s and not is_empty_return(facts, r):
-            res.violation(R, f, fn["qname"], "other-return@%d" % r["l"][1], r["l"][1], "another non-empty return exists")
 
 
 def treelevel(facts, name, container_field, res):
